@@ -485,3 +485,28 @@ Theorem c01_eventually_all_answered : forall c tr0 s oss0, run (init_of c) tr0 =
   eventually_prog s (c01_all_answered tr0 oss0).
 Proof. exact SrvProgress.c01_eventually_all_answered. Qed.
 Print Assumptions c01_eventually_all_answered.
+
+(* monitor over the observation sequence of a run (srv/SrvMonitors.v: mon_reply_once; proof: srv/SrvMonReply.v),
+   extracted and evaluated on every harness log, racing ones included.  No hypothesis.  A response id other than null
+   is sent - counting every element of every message sent during the run - at most as often as members with that id
+   (after fixID) were fed: every reply answers a received request, and none is answered twice.
+   The second half asked of the monitor, "no message is sent after the channel was closed (until a restart)", is NOT
+   true of the model nor of the server: a unit whose handlers return after Stop is still delivered, to the closed
+   channel, where the send fails (c01_no_send_after_close_refuted). *)
+From JV Require SrvMonitors SrvMonReply.
+Theorem c01_mon_reply_once_sound : forall c tr s oss, run (init_of c) tr = Some (s, oss) ->
+  SrvMonitors.mon_reply_once (SrvMonitors.env_of tr) (concat oss) = true.
+Proof. exact SrvMonReply.mon_reply_once_sound. Qed.
+Print Assumptions c01_mon_reply_once_sound.
+
+Theorem c01_reply_count_le_fed : forall c tr s oss i, run (init_of c) tr = Some (s, oss) -> i <> null_bytes ->
+  count_bytes i (SrvMonitors.sent_ids (concat oss)) <= count_bytes i (SrvMonitors.fed_ids (SrvMonitors.env_of tr)).
+Proof. exact SrvMonReply.reply_count_le_fed. Qed.
+Print Assumptions c01_reply_count_le_fed.
+
+Theorem c01_no_send_after_close_refuted :
+  exists tr s oss pre ok b rs post,
+    run (init_of ex_cfg) tr = Some (s, oss) /\ concat oss = pre ++ OSend ok b rs :: post /\
+    In OClose pre /\ ~ In LStart (tl tr) /\ ok = false.
+Proof. exact SrvMonReply.no_send_after_close_refuted. Qed.
+Print Assumptions c01_no_send_after_close_refuted.
